@@ -341,6 +341,24 @@ func (d listenEwmaDecor) EwmaUpdate(n int64, dur time.Duration) {
 	d.r.rec(Event{"ev": "ewma", "d": d.name, "b": d.bar, "n": n, "dur": int64(dur)})
 }
 
+// avgDecor carries the library's own average decorators: AverageAdjust writes their start time, Decor reads it.
+// Both run in the bar's goroutine (AverageAdjust through Bar.DecoratorAverageAdjust).
+type avgDecor struct {
+	*probeDecor
+	eta, speed decor.Decorator
+}
+
+func (d avgDecor) Decor(s decor.Statistics) (string, int) {
+	d.eta.Decor(s)
+	d.speed.Decor(s)
+	return d.probeDecor.Decor(s)
+}
+
+func (d avgDecor) AverageAdjust(t time.Time) {
+	d.eta.(decor.AverageDecorator).AverageAdjust(t)
+	d.speed.(decor.AverageDecorator).AverageAdjust(t)
+}
+
 type customWrap struct{ decor.Decorator }
 
 func (w customWrap) Unwrap() decor.Decorator { return w.Decorator }
@@ -365,6 +383,8 @@ func (r *run) mkDecor(bar, side string, idx, col int, spec DecorSpec) decor.Deco
 	}
 	var d decor.Decorator = p
 	switch {
+	case spec.Avg:
+		d = avgDecor{p, decor.AverageETA(decor.ET_STYLE_GO), decor.AverageSpeed(decor.SizeB1024(0), "% .1f")}
 	case spec.Listen && spec.Ewma:
 		d = listenEwmaDecor{p}
 	case spec.Listen:
@@ -408,7 +428,7 @@ func (r *run) mkFiller(bi *barInfo) mpb.BarFiller {
 			r.rec(Event{"ev": "fault", "kind": "fill", "b": bi.name, "at": f.At})
 			return errFill
 		}
-		r.rec(Event{"ev": "fill", "b": bi.name, "cur": s.Current, "tot": s.Total, "fl": flagsOf(s), "avail": s.AvailableWidth})
+		r.rec(Event{"ev": "fill", "b": bi.name, "cur": s.Current, "tot": s.Total, "fl": flagsOf(s), "avail": s.AvailableWidth, "refill": s.Refill})
 		tok := fmt.Sprintf("<%s|%d|%d|%s|%d>", bi.name, s.Current, s.Total, flagsOf(s), s.AvailableWidth)
 		if len(tok) > s.AvailableWidth {
 			// a filler may not exceed the width it is given
@@ -428,6 +448,10 @@ func (r *run) mkExt(bi *barInfo) mpb.BarFiller {
 		}
 		for i := 0; i < bi.op.Ext; i++ {
 			fmt.Fprintf(w, "|%s:e%d|\n", bi.name, i)
+		}
+		if bi.op.ExtFrag {
+			// a trailing fragment without a line feed is not a row (the library drops it)
+			fmt.Fprintf(w, "|%s:frag", bi.name)
 		}
 		return nil
 	})
@@ -461,7 +485,7 @@ func (r *run) eligible(g *gate) bool {
 		return true
 	case "wait":
 		return r.addsLeft == 0
-	case "write", "shutdown", "cancel", "refresh", "delayend", "nop":
+	case "write", "shutdown", "cancel", "refresh", "delayend", "nop", "pause":
 		return true
 	}
 	if op.B != "" {
@@ -530,6 +554,7 @@ func (r *run) exec(c, i int, op *Op) {
 		inv["nopop"] = op.NoPop
 		inv["after"] = op.After
 		inv["ext"] = op.Ext
+		inv["extfrag"] = op.ExtFrag
 		inv["npre"] = len(op.Pre)
 		inv["napp"] = len(op.App)
 		inv["trim"] = op.Trim
@@ -541,6 +566,7 @@ func (r *run) exec(c, i int, op *Op) {
 		inv["prio"] = prio
 		var syncs [2]int
 		var listens []string
+		ewmas := []string{}
 		var opts []mpb.BarOption
 		var groups [2][]decor.Decorator
 		for si, specs := range [2][]DecorSpec{op.Pre, op.App} {
@@ -557,8 +583,11 @@ func (r *run) exec(c, i int, op *Op) {
 				if sp.Sync {
 					syncs[si]++
 				}
-				if sp.Listen {
+				if sp.Listen && !sp.Avg {
 					listens = append(listens, fmt.Sprintf("%s%s%d", op.B, side, k))
+				}
+				if sp.Ewma && !sp.Avg {
+					ewmas = append(ewmas, fmt.Sprintf("%s%s%d", op.B, side, k))
 				}
 			}
 		}
@@ -568,6 +597,7 @@ func (r *run) exec(c, i int, op *Op) {
 			listens = []string{}
 		}
 		inv["listens"] = listens
+		inv["ewmas"] = ewmas
 		opts = append(opts, mpb.PrependDecorators(groups[0]...), mpb.AppendDecorators(groups[1]...))
 		if op.Rm {
 			opts = append(opts, mpb.BarRemoveOnComplete())
@@ -644,6 +674,15 @@ func (r *run) exec(c, i int, op *Op) {
 	case "refill":
 		r.rec(inv)
 		bar.SetRefill(op.N)
+	case "avgadjust":
+		r.rec(inv)
+		bar.DecoratorAverageAdjust(time.Now().Add(-time.Duration(op.N) * time.Second))
+	case "pause":
+		// the client does something else for a few refresh periods (free-running mode)
+		r.rec(inv)
+		if r.free {
+			time.Sleep(5 * time.Millisecond)
+		}
 	case "abort":
 		r.rec(inv)
 		bar.Abort(op.Flag)
